@@ -177,10 +177,13 @@ class Vertex(base.BaseObject):
         -- linked, unlinked, or anything else, to maintain cache integrity and
         prevent stale data.
         """
+        # entries are dropped whether or not caching is currently enabled:
+        # answers memoised earlier must not survive a change made while the
+        # flag was switched off, or they would be served once it is back on
+        self.__qa_nb_cache = {}
         if not self.NEIGHBOR_CACHING:
             return
         self._CACHE_STATS[self.uid][2] += 1
-        self.__qa_nb_cache = {}
 
     def _qa_neighbors_insert(self, answer, *args):
         """
